@@ -421,6 +421,11 @@ func (rg *filterIPRequestGenerator) GenerateRequests(ctx context.Context, r *Ran
 			if request, ok = readRequest(ctx, requests); !ok {
 				return
 			}
+			if request.Err != nil {
+				// forward error requests unchanged
+				writeRequest(ctx, out, request)
+				continue
+			}
 			contains, err := rg.excludeIPs.Contains(request.DstIP)
 			if err != nil {
 				request.Err = err
